@@ -193,6 +193,9 @@ func (e *engine) neverClosedObligations(props []string) []*oblig {
 	for k := range e.db.neverClosed {
 		bad[k] = nil
 	}
+	for k := range e.db.neverClosedType {
+		bad["type:"+k] = nil
+	}
 	var src func(v ssa.Value, depth int) string
 	src = func(v ssa.Value, depth int) string {
 		if depth > 6 {
@@ -231,6 +234,11 @@ func (e *engine) neverClosedObligations(props []string) []*oblig {
 					if k := src(c.Args[0], 0); e.db.neverClosed[k] {
 						bad[k] = append(bad[k], fmt.Sprintf("%s closes it at %s", canonName(fn), e.posStr(ins.Pos())))
 					}
+					if ct, ok := c.Args[0].Type().Underlying().(*types.Chan); ok {
+						if k := "type:" + typeName(ct.Elem()); e.db.neverClosedType[typeName(ct.Elem())] {
+							bad[k] = append(bad[k], fmt.Sprintf("%s closes a channel of this element type at %s", canonName(fn), e.posStr(ins.Pos())))
+						}
+					}
 				}
 			}
 		}
@@ -242,7 +250,52 @@ func (e *engine) neverClosedObligations(props []string) []*oblig {
 	sort.Strings(keys)
 	var out []*oblig
 	for _, k := range keys {
-		out = append(out, e.structOblig("neverclosed."+k, props, len(bad[k]) == 0, "no close() in /repo has this channel field as operand", strings.Join(bad[k], "\n"), token.NoPos))
+		out = append(out, e.structOblig("neverclosed."+k, props, len(bad[k]) == 0, "no close() in /repo has this channel field (or a channel of this element type) as operand", strings.Join(bad[k], "\n"), token.NoPos))
+	}
+	out = append(out, e.chaninvTypeCoverage(props)...)
+	return out
+}
+
+// chaninvTypeCoverage: an invariant declared for every channel of an element type is asserted
+// where a function under contract sends; a function of /repo WITHOUT a contract that sends on
+// such a channel would escape it, so there must be none.
+func (e *engine) chaninvTypeCoverage(props []string) []*oblig {
+	var out []*oblig
+	var keys []string
+	for k := range e.db.chaninv {
+		if strings.HasPrefix(k, "type:") {
+			keys = append(keys, k)
+		}
+	}
+	sort.Strings(keys)
+	for _, k := range keys {
+		var bad []string
+		for _, fn := range e.allRepoFuncs() {
+			if b := e.db.funcs[canonName(fn)]; b != nil && b.kind == "func" {
+				continue
+			}
+			for _, blk := range fn.Blocks {
+				for _, ins := range blk.Instrs {
+					var chs []ssa.Value
+					switch i := ins.(type) {
+					case *ssa.Send:
+						chs = append(chs, i.Chan)
+					case *ssa.Select:
+						for _, st := range i.States {
+							if st.Dir == types.SendOnly {
+								chs = append(chs, st.Chan)
+							}
+						}
+					}
+					for _, ch := range chs {
+						if ct, ok := ch.Type().Underlying().(*types.Chan); ok && "type:"+typeName(ct.Elem()) == k {
+							bad = append(bad, fmt.Sprintf("%s sends at %s without being under contract", canonName(fn), e.posStr(ins.Pos())))
+						}
+					}
+				}
+			}
+		}
+		out = append(out, e.structOblig("chaninv-coverage."+k, props, len(bad) == 0, "every function of /repo that sends on a channel of this element type is under contract (so the invariant is asserted at every send)", strings.Join(bad, "\n"), token.NoPos))
 	}
 	return out
 }
